@@ -171,3 +171,166 @@ func VerifConvertArgs(n int) {
 }
 
 var _ = base.NIL
+
+// VerifConvertDecls: C25, declaration level. A class declaration with a singleton method
+// `parse` (na Integer parameters -> Integer), optionally an instance method of the same name
+// (ni parameters -> String), `initialize`, an attribute, a nested class, and alias members of
+// a concretised shape (single / chained, singleton / instance / both) is converted by the real
+// convertDeclarations. na and ni are solver variables. Asserted: every alias name is emitted
+// on the side (class / instance) it was declared for, with the argument count and return type
+// of the method it (transitively) names; nothing is emitted on the other side; `initialize`
+// becomes the class method `new` returning the class; the nested class gets the nested frame;
+// converting twice gives the same methods in the same order.
+func VerifConvertDecls(n int) {
+	ti := &RBSType{Class: "class_instance", Name: "Integer"}
+	ts := &RBSType{Class: "class_instance", Name: "String"}
+	na := verifapi.Int("class_arity", 0, 2)
+	ni := verifapi.Int("inst_arity", 0, 2)
+	shape := verifapi.Concrete(verifapi.Int("aliases", 0, 5))
+	namesake := verifapi.Concrete(verifapi.Int("namesake", 0, 1))
+	fn := func(k int, ret *RBSType) []RBSOverload {
+		ft := RBSFuncType{ReturnType: *ret}
+		for i := 0; i < k; i++ {
+			ft.RequiredPositionals = append(ft.RequiredPositionals, RBSParam{Type: ti})
+		}
+		return []RBSOverload{{MethodType: RBSMethodType{Type: ft}}}
+	}
+	members := []RBSMember{{Member: "method_definition", Name: "parse", Kind: "singleton", Overloads: fn(na, ti)}}
+	if namesake == 1 {
+		members = append(members, RBSMember{Member: "method_definition", Name: "parse", Kind: "instance", Overloads: fn(ni, ts)})
+	} else {
+		members = append(members, RBSMember{Member: "method_definition", Name: "render", Kind: "instance", Overloads: fn(ni, ts)})
+	}
+	instOrigin := []string{"render", "parse"}[namesake]
+	alias := func(kind, nw, old string) RBSMember {
+		return RBSMember{Member: "alias", Kind: kind, NewName: nw, OldName: old}
+	}
+	type want struct {
+		name      string
+		singleton bool
+	}
+	var wants []want
+	name := ""
+	switch shape {
+	case 0:
+		name = "single-singleton-alias"
+		members = append(members, alias("singleton", "read", "parse"))
+		wants = []want{{"read", true}}
+	case 1:
+		name = "chain-of-two-singleton-aliases"
+		members = append(members, alias("singleton", "read", "parse"), alias("singleton", "load", "read"))
+		wants = []want{{"read", true}, {"load", true}}
+	case 2:
+		name = "chain-of-three-singleton-aliases"
+		members = append(members, alias("singleton", "read", "parse"), alias("singleton", "load", "read"), alias("singleton", "fetch", "load"))
+		wants = []want{{"read", true}, {"load", true}, {"fetch", true}}
+	case 3:
+		name = "single-instance-alias"
+		members = append(members, alias("instance", "show", instOrigin))
+		wants = []want{{"show", false}}
+	case 4:
+		name = "chain-of-two-instance-aliases"
+		members = append(members, alias("instance", "show", instOrigin), alias("instance", "print", "show"))
+		wants = []want{{"show", false}, {"print", false}}
+	case 5:
+		name = "interleaved-singleton-and-instance-chains-with-shared-names"
+		members = append(members, alias("singleton", "read", "parse"), alias("instance", "read", instOrigin), alias("singleton", "load", "read"), alias("instance", "load", "read"))
+		wants = []want{{"read", true}, {"load", true}, {"read", false}, {"load", false}}
+	}
+	if namesake == 1 {
+		name += "/instance-method-named-like-the-singleton-method"
+	}
+	members = append(members,
+		RBSMember{Member: "method_definition", Name: "initialize", Kind: "instance", Overloads: fn(1, &RBSType{Class: "void"})},
+		RBSMember{Member: "attr_reader", Name: "size", Type: ti},
+		RBSMember{Declaration: "class", Name: "Inner", Members: []RBSMember{{Member: "method_definition", Name: "run", Kind: "instance", Overloads: fn(0, ti)}}})
+	decls := []RBSDeclaration{{Declaration: "class", Name: "Conv", Members: members}}
+	verifapi.Witness("C25.shape", name)
+	c1 := convertDeclarations(decls, "")
+	c2 := convertDeclarations(decls, "")
+	verifapi.Reach("converted")
+	find := func(cs []TiClassConfig, class string) *TiClassConfig {
+		for i := range cs {
+			if cs[i].Class == class {
+				return &cs[i]
+			}
+		}
+		return nil
+	}
+	conv := find(c1, "Conv")
+	verifapi.Classify("C25/declaration/class-not-emitted")
+	verifapi.Assert(conv != nil && len(c1) == 2 && len(c2) == 2, "C25-decl-class")
+	if conv == nil || len(c1) != 2 || len(c2) != 2 {
+		return
+	}
+	count := func(ms []TiMethod, nm string) (k, args int, ret string) {
+		args = -1
+		for _, m := range ms {
+			if m.Name == nm {
+				k++
+				args = len(m.Arguments)
+				if len(m.ReturnType.Type) == 1 {
+					ret = m.ReturnType.Type[0]
+				}
+			}
+		}
+		return
+	}
+	hasSide := func(nm string, singleton bool) bool {
+		for _, w := range wants {
+			if w.name == nm && w.singleton == singleton {
+				return true
+			}
+		}
+		return false
+	}
+	for _, w := range wants {
+		side := "instance"
+		ms, arity, ret := conv.InstanceMethods, ni, "String"
+		if w.singleton {
+			side = "singleton"
+			ms, arity, ret = conv.ClassMethods, na, "Int"
+		}
+		k, args, r := count(ms, w.name)
+		verifapi.Classify("C25/declaration/alias-not-emitted-or-emitted-twice/" + side + "/" + name)
+		verifapi.Assert(k == 1, "C25-alias-emitted")
+		verifapi.Classify("C25/declaration/alias-signature-differs-from-the-aliased-method/" + side + "/" + name)
+		verifapi.Assert(k != 1 || (args == arity && r == ret), "C25-alias-signature")
+		if !hasSide(w.name, !w.singleton) {
+			other := conv.ClassMethods
+			if w.singleton {
+				other = conv.InstanceMethods
+			}
+			ko, _, _ := count(other, w.name)
+			verifapi.Classify("C25/declaration/alias-emitted-on-the-other-side/" + side + "/" + name)
+			verifapi.Assert(ko == 0, "C25-alias-side")
+		}
+	}
+	kn, an, rn := count(conv.ClassMethods, "new")
+	verifapi.Classify("C25/declaration/initialize-not-converted-to-new-returning-the-class")
+	verifapi.Assert(kn == 1 && an == 1 && rn == "Conv", "C25-new")
+	inner := find(c1, "Inner")
+	verifapi.Classify("C25/declaration/nested-class-frame-wrong")
+	verifapi.Assert(inner != nil && inner.Frame == "Builtin::Conv" && conv.Frame == "Builtin", "C25-nested")
+	// determinism of the declaration-level conversion
+	same := true
+	for ci := range c1 {
+		a, b := c1[ci], c2[ci]
+		if a.Class != b.Class || a.Frame != b.Frame || len(a.ClassMethods) != len(b.ClassMethods) || len(a.InstanceMethods) != len(b.InstanceMethods) {
+			same = false
+			continue
+		}
+		for i := range a.ClassMethods {
+			if a.ClassMethods[i].Name != b.ClassMethods[i].Name || len(a.ClassMethods[i].Arguments) != len(b.ClassMethods[i].Arguments) {
+				same = false
+			}
+		}
+		for i := range a.InstanceMethods {
+			if a.InstanceMethods[i].Name != b.InstanceMethods[i].Name || len(a.InstanceMethods[i].Arguments) != len(b.InstanceMethods[i].Arguments) {
+				same = false
+			}
+		}
+	}
+	verifapi.Classify("C25/declaration/two-conversions-differ")
+	verifapi.Assert(same, "C25-decl-deterministic")
+}
